@@ -299,6 +299,35 @@ fn hash_all<A: SxK>(x: &Side<A>, other_view: &SeqSlice<A>, out: &mut Out) {
         }
         (base, v)
     });
+    // text with a byte that is no symbol character of this codec equals no sequence (and comparing never panics)
+    if !x.model.is_empty() {
+        let sp = bsv::spec::spec(A::CID);
+        let foreign: Vec<u8> = [b'N', b'n', b'x', b'U', b'-', b'*', b'@', b' ', 0u8, b'a', b'H', b'Z', b'0'].into_iter().filter(|b| sp.parse(*b).is_none() && A::try_from_ascii(*b).is_none()).collect();
+        let r3 = out.catch(|| {
+            let mut bad: Vec<String> = Vec::new();
+            for p in [0usize, n / 2, n - 1] {
+                for &b in &foreign {
+                    let mut t = x.text.clone().into_bytes();
+                    t[p] = b;
+                    let Ok(t) = String::from_utf8(t) else { continue };
+                    if *x.view == t.as_str() || *x.headed == t.as_str() {
+                        bad.push(format!("== {t:?}"));
+                    }
+                    for sid in Sid::ALL {
+                        if let Some(api) = kmer_api::<A>(sid, n) {
+                            if let Ok(xv) = api.try_from_slice(x.view) {
+                                if api.eq_str(xv, &t) == Some(true) {
+                                    bad.push(format!("Kmer<{}> == {t:?}", sid.name()));
+                                }
+                            }
+                        }
+                    }
+                }
+            }
+            bad
+        });
+        out.check(matches!(&r3, Ok(b) if b.is_empty()), || (format!("{cn}/eq/equals-text-of-another-alphabet"), format!("X = {}: {:?}", show_cut(x.model), r3)));
+    }
     // containers of sequences hash through Hash::hash_slice / tuple impls: same content, same stream
     let r2 = out.catch(|| {
         let a = vec![x.fresh.clone(), x.headed.clone()];
